@@ -54,6 +54,31 @@ fn check(run: &Run, name: &str, d: &Diagram, with_kh: bool) -> Option<Lp> {
         }
         Err(p) => run.fail(&key, &format!("jones_polynomial panicked: {p}"), json!({"pd": d.pd()})),
     }
+    // presentations: the same diagram with its edges renumbered (labels with gaps, beyond 2n and 4n, reversed,
+    // shuffled) - the polynomial is a function of the diagram, not of the labels
+    // (seed `C04-components-flag-table-2n`: circle counts of `jones_polynomial` wrong for labels > 2n)
+    for (rn, f) in relabelings(2 * d.n) {
+        run.add("evaluations", 1);
+        run.add("relabelled_presentations", 1);
+        let l = to_link_with(d, &*f);
+        let got = catch(|| {
+            let p = jones_polynomial(&l);
+            let mut m = Lp::new();
+            for (x, a) in p.iter() {
+                let e: isize = x.deg();
+                if *a != 0 {
+                    *m.entry(e as i64).or_insert_with(|| z(0)) += z(*a as i64);
+                }
+            }
+            m.retain(|_, v| !v.is_zero());
+            m
+        });
+        match got {
+            Ok(j) if j == reference => {}
+            Ok(j) => run.fail(&format!("{key}:relabelled:{rn}"), &format!("jones_polynomial of the presentation with edge labels '{rn}' {:?} != Kauffman state sum {:?}", j, reference), json!({"pd": pd_of(&l)})),
+            Err(p) => run.fail(&format!("{key}:relabelled:{rn}"), &format!("jones_polynomial panicked on the presentation with edge labels '{rn}': {p}"), json!({"pd": pd_of(&l)})),
+        }
+    }
     if with_kh {
         run.add("evaluations", 1);
         match euler_char(d) {
@@ -246,6 +271,7 @@ fn main() {
     let coverage = json!({
         "evaluations": run.get("evaluations"),
         "distinct_nontrivial": run.get("diagrams") + run.get("braid_words"),
+        "relabelled_presentations": run.get("relabelled_presentations"),
         "rule": "all planar diagrams with <= 3 (thorough 4) crossings and all braid closures up to the stated lengths (distinct by construction); three independently computed quantities compared pairwise: library jones_polynomial, graded Euler characteristic of the library's bigraded Kh over Z, reference Kauffman state sum; plus invariance along every PD/braid move edge and q -> 1/q under Link::mirror()",
         "move_edges": run.get("move_edges"),
         "exhaustive": true,
